@@ -141,8 +141,19 @@ def root_name(idx, case):
     init = case["h"][0]["contents"]
     # (a file that includes the root, at any time, would make a rebuild pick ANOTHER root: which file is the root is not
     # something an update can change in the incremental workspace, and not what C12 is about)
-    if idx % 3 == 0 and not any(1 in c["incl"] for c in init) and not any(1 in st["content"]["incl"] for st in case["h"][1:]):
+    graph_root_ok = not any(1 in c["incl"] for c in init) and not any(1 in st["content"]["incl"] for st in case["h"][1:])
+    if idx % 3 == 0 and graph_root_ok:
         return "0root.journal"
+    if idx % 3 == 1 and graph_root_ok:
+        # a root whose name sorts LAST: it is found only if every other file is seen to be included by someone (through
+        # literal paths and through patterns alike).  Used when, at every step, every existing file is a member.
+        present = {f + 1 for f, c in enumerate(init) if not c.get("absent")}
+        ok = len(case["h"][0]["view"]["members"]) == len(present)
+        for st in case["h"][1:]:
+            present = present | {st["file"]}
+            ok = ok and len(st["view"]["members"]) == len(present)
+        if ok and len(present) >= 2:
+            return "zroot.journal"
     return "main.journal"
 
 
@@ -276,9 +287,11 @@ def main(args):
 
 def confirm(run, d):
     c = d["case"]["spec_case"]
-    hc = to_harness(1, c)          # index 1: the default root name ...
-    if d["case"].get("root", "main.journal") != "main.journal":
+    hc = to_harness(2, c)          # index 2: the default root name ...
+    if d["case"].get("root", "main.journal") == "0root.journal":
         hc = to_harness(0, c)      # ... index 0: the root found through the include graph
+    if d["case"].get("root", "main.journal") == "zroot.journal":
+        hc = to_harness(1, c)
     NAMES[1] = d["case"].get("root", "main.journal")
     res = run.harness("workspace", [hc])[0]
     return any(sig == d["sig"] for sig, _, _ in evaluate(c, res))
